@@ -2,10 +2,24 @@
 #include <SQuIDS/SUNalg.h>
 using namespace squids;
 // which: 0 Projector, 1 Identity, 2 PosProjector, 3 NegProjector, 4 Generator
-// hist=1: a vector of the same dimension filled with the value junk has been destroyed before, so the factory may be handed its block back
+// hist=1: a vector of the same dimension filled with the value junk has been destroyed before, so the factory may be handed its block back;
+// hist=2: the same factory ran in a neighbouring dimension before (scratch carried between calls)
 extern "C" int h_factory(unsigned which, unsigned d, unsigned i, double* o, unsigned hist, double junk){
   try{
-    if(hist){ SU_vector j(d); j.SetAllComponents(junk); }
+    if(hist==1){ SU_vector j(d); j.SetAllComponents(junk); }
+    if(hist==2){ // the same factory was used in another dimension (and with another index) before
+      unsigned dp = d<6 ? d+1 : d-1;
+      SU_vector p;
+      switch(which){
+        case 0: p = SU_vector::Projector(dp,dp-1); break;
+        case 1: p = SU_vector::Identity(dp); break;
+        case 2: p = SU_vector::PosProjector(dp,dp-1); break;
+        case 3: p = SU_vector::NegProjector(dp,dp-1); break;
+        case 4: p = SU_vector::Generator(dp,dp*dp-1); break;
+        default: break;
+      }
+      if(p.Dim()!=dp) return 4;
+    }
     SU_vector v;
     switch(which){
       case 0: v = SU_vector::Projector(d,i); break;
